@@ -541,7 +541,9 @@ func init() {
 			{Name: "strand", N: core.Const(320, 9000), Run: runStrand},
 			{Name: "safety", N: core.Const(480, 13500), Run: runSafety},
 			{Name: "e2e", N: core.Const(128, 4800), Run: runE2E},
+			{Name: "concurrent", N: core.Const(24, 240), Run: runConcurrent, Race: true, NRace: core.Const(6, 24), TimeoutS: 600},
 		},
+		RaceFiles:     []string{"pkg/obingslibrary/", "pkg/obiapat/"},
 		MinNontrivial: 500,
 	})
 }
